@@ -98,6 +98,18 @@ CLAIMS = {
         note="trusts clang AST/CFG; the full (level x class x filter-history) table as executed is not decided",
         also=("engine B (boolshape.py)", "engine E (effects.py)"),
         technique="static analysis: enum-capacity facts, truth tables over orderings, CFG loop-shape rules"),
+    "C15": dict(
+        level="other", engine="engine A (cfg.py)",
+        text="Necessary structural conditions of the rolling-file policies (not the history behaviour): the "
+             "constant-folded open mode of every mFile.open() is non-truncating; every counter that written() updates "
+             "and writeCheck() reads is reassigned on the open path; the byte accounting of written()/writeCheck(), "
+             "evaluated abstractly, equals the operands writeMessage() streams (text + terminator); "
+             "check -> write -> account and close -> roll -> open orderings by dominance; roll loops shift "
+             "generation n-1 to n with n descending. Breaking any of these breaks the property for some history; "
+             "histories, restarts and crash points themselves are not decided.",
+        note="trusts clang AST/CFG and constant folding; libstdc++ openmode bit values; std::endl writes one byte",
+        also=("engine B (boolshape.py)",),
+        technique="static analysis: constant-folded open modes, field effect facts, abstract evaluation of the accounting, CFG dominance"),
     "C20": dict(
         level="other", engine="engine E (effects.py)",
         text="Static lockset/dominance and initialisation-order analysis of every Singleton<T>::instance/reset and "
